@@ -3,7 +3,7 @@ import Aiortc.Lemmas.C05.V2Chunk
 namespace Aiortc.Sctp.V2
 open Aiortc.Gen Aiortc.Sctp.Wire
 set_option linter.unusedSimpArgs false
-variable {U : List Nat}
+variable {U : List Nat} {B : Nat}
 
 theorem WF.popTask {e : Ep} (h : WF U e) {t : Task} {rest : List Task} (ht : e.tasks = t :: rest) :
     WF U { e with tasks := rest } ∧ TaskOk t :=
@@ -11,34 +11,35 @@ theorem WF.popTask {e : Ep} (h : WF U e) {t : Task} {rest : List Task} (ht : e.t
     fun x hx => h.tasks x (by rw [ht]; simp [hx]), h.rcr⟩, h.tasks t (by rw [ht]; simp)⟩
 
 /-- A queued task never raises (what was queued is serialisable: clause `tasks` of the invariant). -/
-theorem wp_runTask {A} {Q : Unit → St → Prop} {e : Ep} {l : List Out} (h : WF U e)
-    (hq : ∀ e' l', WF U e' → e'.rwnd = e.rwnd → e'.inStreams = e.inStreams → Q () (e', l')) :
+theorem wp_runTask {A} {Q : Unit → St → Prop} {e : Ep} {l : List Out} (h : WFx B e)
+    (hq : ∀ e' l', WFx B e' → e'.rwnd = e.rwnd → e'.inStreams = e.inStreams → Q () (e', l')) :
     wp A runTask Q (e, l) := by
   unfold runTask
   simp only [wp_bind, wp_getE]
   split
   · simpa using hq e l h rfl rfl
   · rename_i t rest hte
-    obtain ⟨hw1, hok⟩ := h.popTask hte
+    obtain ⟨U, hb, hw⟩ := h
+    obtain ⟨hw1, hok⟩ := hw.popTask hte
+    have hx1 : WFx B { e with tasks := rest } := ⟨U, hb, hw1⟩
     simp only [wp_bind, wp_setE]
     cases t with
     | flush =>
-      refine wp_flush hw1 ?_
+      refine wp_flush hx1 ?_
       intro e' l' hw' hf
-      obtain ⟨cs, dcs, q, tx, _, _, _, _, rfl, _⟩ := hf
-      exact hq _ _ hw' rfl rfl
+      exact hq _ _ hw' hf.rwnd hf.ins
     | transmit =>
-      refine wp_transmit hw1 ?_
+      refine wpx_transmit hx1 ?_
       intro tx l' hw'
       exact hq _ _ hw' rfl rfl
     | reconfig =>
-      refine wp_transmitReconfig hw1 ?_
+      refine wpx_transmitReconfig hx1 ?_
       intro e' l' hw' hf
       exact hq _ _ hw' hf.rwnd hf.ins
     | resend c =>
       refine wp_sendChunk hw1 hok ?_
       intro d
-      exact hq _ _ hw1 rfl rfl
+      exact hq _ _ hx1 rfl rfl
     | resendReconfig p =>
       obtain ⟨hin, hlen⟩ := hok
       simp only [wp_bind, RcParam.serialize, hin, if_true, wp_liftO_ok]
@@ -46,16 +47,17 @@ theorem wp_runTask {A} {Q : Unit → St → Prop} {e : Ep} {l : List Out} (h : W
       · simp only [RcParam.bytes, List.length_append, length_u32be, length_u16sBytes]
         omega
       · intro d
-        exact hq _ _ hw1 rfl rfl
+        exact hq _ _ hx1 rfl rfl
 
 /-- T1 expiry of an ARMED timer (`e.t1 = true`: asyncio only calls the handle of a timer that was started). -/
-theorem wp_fire_t1 {A} {Q : Unit → St → Prop} {e : Ep} {l : List Out} (h : WF U e) (ht : e.t1 = true)
-    (hq : ∀ e' l', WF U e' → e'.rwnd = e.rwnd → e'.inStreams = e.inStreams → Q () (e', l')) :
+theorem wp_fire_t1 {A} {Q : Unit → St → Prop} {e : Ep} {l : List Out} (h : WFx B e) (ht : e.t1 = true)
+    (hq : ∀ e' l', WFx B e' → e'.rwnd = e.rwnd → e'.inStreams = e.inStreams → Q () (e', l')) :
     wp A (handle (.fire "t1")) Q (e, l) := by
-  obtain ⟨c, hcs, hcr⟩ := h.tm1 ht
-  have hw0 : WF U { e with t1Failures := e.t1Failures + 1, t1 := false } := by
+  obtain ⟨c, hcs, hcr⟩ : ∃ c, e.t1Chunk = some c ∧ c.inRange = true := by
+    obtain ⟨U, _, hw⟩ := h; exact hw.tm1 ht
+  have hw0 : WFx B { e with t1Failures := e.t1Failures + 1, t1 := false } := by
     have := h.t1Off e.t1Chunk
-    wf_same2 this
+    wfx_same this
   simp only [handle, wp_bind, wp_modE, wp_getE]
   split
   · refine wp_setState_closed hw0 ?_
@@ -63,17 +65,18 @@ theorem wp_fire_t1 {A} {Q : Unit → St → Prop} {e : Ep} {l : List Out} (h : W
     exact hq _ _ hw hr hi
   · simp only [hcs, wp_bind, wp_queueTask, wp_modE, wp_emit]
     refine hq _ _ ?_ rfl rfl
-    have h1 := hw0.pushTask (t := .resend c) hcr
-    exact ⟨h1.net, h1.ch, h1.tx, h1.rx, h1.rcReq, h1.rcResp, h1.sack, h1.ids, h1.cap,
-      (fun _ => ⟨c, rfl, hcr⟩), h1.tm2, h1.tasks, h1.rcr⟩
+    exact (hw0.pushTask (t := .resend c) hcr).map (fun _ h1 =>
+      ⟨h1.net, h1.ch, h1.tx, h1.rx, h1.rcReq, h1.rcResp, h1.sack, h1.ids, h1.cap,
+        (fun _ => ⟨c, rfl, hcr⟩), h1.tm2, h1.tasks, h1.rcr⟩) rfl
 
-theorem wp_fire_t2 {A} {Q : Unit → St → Prop} {e : Ep} {l : List Out} (h : WF U e) (ht : e.t2 = true)
-    (hq : ∀ e' l', WF U e' → e'.rwnd = e.rwnd → e'.inStreams = e.inStreams → Q () (e', l')) :
+theorem wp_fire_t2 {A} {Q : Unit → St → Prop} {e : Ep} {l : List Out} (h : WFx B e) (ht : e.t2 = true)
+    (hq : ∀ e' l', WFx B e' → e'.rwnd = e.rwnd → e'.inStreams = e.inStreams → Q () (e', l')) :
     wp A (handle (.fire "t2")) Q (e, l) := by
-  obtain ⟨c, hcs, hcr⟩ := h.tm2 ht
-  have hw0 : WF U { e with t2Failures := e.t2Failures + 1, t2 := false } := by
+  obtain ⟨c, hcs, hcr⟩ : ∃ c, e.t2Chunk = some c ∧ c.inRange = true := by
+    obtain ⟨U, _, hw⟩ := h; exact hw.tm2 ht
+  have hw0 : WFx B { e with t2Failures := e.t2Failures + 1, t2 := false } := by
     have := h.t2Off e.t2Chunk
-    wf_same2 this
+    wfx_same this
   simp only [handle, wp_bind, wp_modE, wp_getE]
   split
   · refine wp_setState_closed hw0 ?_
@@ -81,135 +84,106 @@ theorem wp_fire_t2 {A} {Q : Unit → St → Prop} {e : Ep} {l : List Out} (h : W
     exact hq _ _ hw hr hi
   · simp only [hcs, wp_bind, wp_queueTask, wp_modE, wp_emit]
     refine hq _ _ ?_ rfl rfl
-    have h1 := hw0.pushTask (t := .resend c) hcr
-    exact ⟨h1.net, h1.ch, h1.tx, h1.rx, h1.rcReq, h1.rcResp, h1.sack, h1.ids, h1.cap,
-      h1.tm1, (fun _ => ⟨c, rfl, hcr⟩), h1.tasks, h1.rcr⟩
+    exact (hw0.pushTask (t := .resend c) hcr).map (fun _ h1 =>
+      ⟨h1.net, h1.ch, h1.tx, h1.rx, h1.rcReq, h1.rcResp, h1.sack, h1.ids, h1.cap,
+        h1.tm1, (fun _ => ⟨c, rfl, hcr⟩), h1.tasks, h1.rcr⟩) rfl
 
-theorem wp_fire_reconfig {A} {Q : Unit → St → Prop} {e : Ep} {l : List Out} (h : WF U e)
-    (hq : ∀ e' l', WF U e' → e'.rwnd = e.rwnd → e'.inStreams = e.inStreams → Q () (e', l')) :
+theorem wp_fire_reconfig {A} {Q : Unit → St → Prop} {e : Ep} {l : List Out} (h : WFx B e)
+    (hq : ∀ e' l', WFx B e' → e'.rwnd = e.rwnd → e'.inStreams = e.inStreams → Q () (e', l')) :
     wp A (handle (.fire "reconfig")) Q (e, l) := by
   simp only [handle, wp_bind, wp_modE, wp_getE]
-  have hw0 : WF U { e with rcTimer := false } := by wf_same2 h
+  have hw0 : WFx B { e with rcTimer := false } := by wfx_same h
   split
   · rename_i param hp
+    have hrc : RcOk param := by obtain ⟨U, _, hw⟩ := h; exact hw.rcr param hp
     split
     · simp only [wp_bind, wp_queueTask]
       refine wp_rcStart ?_
       intro l'
-      have h1 := hw0.pushTask (t := .resendReconfig param) (h.rcr param hp)
-      exact hq _ _ (by wf_same2 h1) rfl rfl
+      have h1 := hw0.pushTask (t := .resendReconfig param) hrc
+      exact hq _ _ (by wfx_same h1) rfl rfl
     · simp only [wp_pure]
       exact hq _ _ hw0 rfl rfl
   · simp only [wp_pure]
     exact hq _ _ hw0 rfl rfl
 
 /-- T3 expiry (`_t3_expired`). -/
-theorem wp_fire_t3 {A} {Q : Unit → St → Prop} {e : Ep} {l : List Out} (h : WF U e)
-    (hq : ∀ e' l', WF U e' → e'.rwnd = e.rwnd → e'.inStreams = e.inStreams → Q () (e', l')) :
+theorem wp_fire_t3 {A} {Q : Unit → St → Prop} {e : Ep} {l : List Out} (h : WFx B e)
+    (hq : ∀ e' l', WFx B e' → e'.rwnd = e.rwnd → e'.inStreams = e.inStreams → Q () (e', l')) :
     wp A (handle (.fire "t3")) Q (e, l) := by
   simp only [handle, wp_bind, wp_setE, wp_getE, wp_queueTask]
-  exact hq _ _ ((h.setTx (Tx.t3Expired_ok e.tx h.tx (1000 * e.now))).pushTask trivial) rfl rfl
+  exact hq _ _ ((h.map (fun _ hw => hw.setTx (Tx.t3Expired_ok e.tx hw.tx (1000 * e.now))) rfl).pushTask trivial)
+    rfl rfl
 
 /-! ## application inputs -/
 
 /-- `transport.stop()`. -/
-theorem wp_stop {A} {Q : Unit → St → Prop} {e : Ep} {l : List Out} (h : WF U e)
-    (hq : ∀ e' l', WF U e' → e'.rwnd = e.rwnd → e'.inStreams = e.inStreams → Q () (e', l')) :
+theorem wp_stop {A} {Q : Unit → St → Prop} {e : Ep} {l : List Out} (h : WFx B e)
+    (hq : ∀ e' l', WFx B e' → e'.rwnd = e.rwnd → e'.inStreams = e.inStreams → Q () (e', l')) :
     wp A (handle .stop) Q (e, l) := by
   simp only [handle, wp_bind, wp_getE]
   have hfin : ∀ l1, wp A (setState .closed) Q ({ e with registered := false }, l1) := fun l1 =>
-    wp_setState_closed (e := { e with registered := false }) (by wf_same2 h) (fun e' l' hw hr hi => hq _ _ hw hr hi)
+    wp_setState_closed (e := { e with registered := false }) (by wfx_same h) (fun e' l' hw hr hi => hq _ _ hw hr hi)
   split
   · simp only [wp_bind]
-    refine wp_sendChunk (c := .params .abort 0 []) h (by decide) ?_
+    refine wpx_sendChunk (c := .params .abort 0 []) h (by decide) ?_
     intro d
     first | exact hfin _ | (simp only [wp_modE]; exact hfin _)
   · simp only [wp_bind, wp_pure, wp_modE]
     exact hfin _
 
 /-- `channel.bufferedAmountLowThreshold = v` on an existing channel object. -/
-theorem wp_threshold {A} {i : Nat} {v : Int} {Q : Unit → St → Prop} {e : Ep} {l : List Out} (h : WF U e)
+theorem wp_threshold {A} {i : Nat} {v : Int} {Q : Unit → St → Prop} {e : Ep} {l : List Out} (h : WFx B e)
     (hi : i < e.chans.length)
-    (hq : ∀ e' l', WF U e' → e'.rwnd = e.rwnd → e'.inStreams = e.inStreams → Q () (e', l')) :
+    (hq : ∀ e' l', WFx B e' → e'.rwnd = e.rwnd → e'.inStreams = e.inStreams → Q () (e', l')) :
     wp A (handle (.threshold i v)) Q (e, l) := by
   obtain ⟨c, hc⟩ := getElem?_of_lt hi
   simp only [handle]
   split
   · simp only [wp_emit]; exact hq _ _ h rfl rfl
   · simp only [wp_bind, wp_chanGet hc, wp_chanSet]
-    exact hq _ _ (h.setChan hc (c' := { c with threshold := v.toNat }) ⟨rfl, rfl, rfl⟩) rfl rfl
+    exact hq _ _ (h.map (fun _ hw => hw.setChan hc (c' := { c with threshold := v.toNat }) ⟨rfl, rfl, rfl⟩
+      (fun h' => Or.inl h')) rfl) rfl rfl
 
 /-- `channel.close()` on an existing channel object; the `KeyError` of `self._data_channels.pop(channel.id)` needs the
-channel to be registered when the association is not established (`hreg`). -/
-theorem wp_close {A} {i : Nat} {Q : Unit → St → Prop} {e : Ep} {l : List Out} (h : WF U e)
+channel to be registered when the association is not established. -/
+theorem wp_close {A} {i : Nat} {Q : Unit → St → Prop} {e : Ep} {l : List Out} (h : WFx B e)
     (hi : i < e.chans.length) (hk : A "KeyError" ∨ e.assoc = .established)
-    (hq : ∀ e' l', WF U e' → e'.rwnd = e.rwnd → e'.inStreams = e.inStreams → Q () (e', l')) :
+    (hq : ∀ e' l', WFx B e' → e'.rwnd = e.rwnd → e'.inStreams = e.inStreams → Q () (e', l')) :
     wp A (handle (.close i)) Q (e, l) := by
   simp only [handle]
   refine wp_dcClose h hi hk ?_
   intro e' l' hw hr hin _ _ _
   exact hq _ _ hw hr hin
 
-theorem ChansOk.pushQ {chans dcs q rcq} (h : ChansOk U chans dcs q rcq) {i ppid : Nat} {data : Bytes}
-    (hi : i < chans.length) (hp : ppid < 4294967296)
-    (hpr : ∀ c, chans[i]? = some c → ppid = WEBRTC_DCEP ∨ c.Reliable ∨ ∃ s, c.id = some s ∧ s ∈ U) :
-    ChansOk U chans dcs (q ++ [(i, ppid, data)]) rcq := by
-  refine ⟨h.dcIdx, h.dcKeys, ?_, ?_, ?_, h.sid, h.rcq⟩
-  · intro x hx
-    rcases List.mem_append.mp hx with hx | hx
-    · exact h.qIdx x hx
-    · simp at hx; subst hx; exact hi
-  · intro x hx c hc
-    rcases List.mem_append.mp hx with hx | hx
-    · exact h.qPR x hx c hc
-    · simp at hx; subst hx; exact hpr c hc
-  · intro x hx
-    rcases List.mem_append.mp hx with hx | hx
-    · exact h.qPpid x hx
-    · simp at hx; subst hx; exact hp
-
-theorem WF.pushQ {e : Ep} (h : WF U e) {i ppid : Nat} {data : Bytes}
-    (hi : i < e.chans.length) (hp : ppid < 4294967296)
-    (hpr : ∀ c, e.chans[i]? = some c → ppid = WEBRTC_DCEP ∨ c.Reliable ∨ ∃ s, c.id = some s ∧ s ∈ U) :
-    WF U { e with dcQueue := e.dcQueue ++ [(i, ppid, data)] } :=
-  ⟨h.net, h.ch.pushQ hi hp hpr, h.tx, h.rx, h.rcReq, h.rcResp, h.sack, h.ids, h.cap, h.tm1, h.tm2,
-   h.tasks, h.rcr⟩
-
-/-- The channel may carry user messages: it is reliable, or its stream is one of `U`. -/
-def SendOk (U : List Nat) (e : Ep) (i : Nat) : Prop :=
-  ∀ c, e.chans[i]? = some c → c.Reliable ∨ ∃ s, c.id = some s ∧ s ∈ U
-
-/-- `channel.send(data)` on an existing channel object. -/
+/-- `channel.send(data)` on an existing channel object: `InvalidStateError` unless it is open; one unit of the budget. -/
 theorem wp_send {A} {i : Nat} {isStr : Bool} {data : Bytes} {Q : Unit → St → Prop} {e : Ep} {l : List Out}
-    (h : WF U e) (hi : i < e.chans.length) (hs : SendOk U e i)
-    (hq : ∀ e' l', WF U e' → e'.rwnd = e.rwnd → e'.inStreams = e.inStreams → Q () (e', l')) :
+    (h : WFx (B + 1) e) (hi : i < e.chans.length)
+    (hq : ∀ e' l', WFx B e' → e'.rwnd = e.rwnd → e'.inStreams = e.inStreams → Q () (e', l')) :
     wp A (handle (.send i isStr data)) Q (e, l) := by
   obtain ⟨c, hc⟩ := getElem?_of_lt hi
   simp only [handle, wp_bind, wp_chanGet hc]
   split
-  · simp only [wp_bind, wp_emit, wp_pure]; exact hq _ _ h rfl rfl
-  · -- `ud`, `ppid` as computed by `send`
-    have key : ∀ (ppid : Nat) (ud : Bytes), ppid < 4294967296 →
-        wp A (do addBuffered i ud.length
-                 modE fun e => { e with dcQueue := e.dcQueue ++ [(i, ppid, ud)] }
-                 queueTask .flush "data_channel_flush") Q (e, l) := by
-      intro ppid ud hpp
-      unfold addBuffered
-      simp only [wp_bind, wp_chanGet hc, wp_chanSet]
-      have hw := h.setChan hc (c' := { c with buffered := c.buffered + ud.length }) ⟨rfl, rfl, rfl⟩
-      have hw2 := (hw.pushQ (i := i) (ppid := ppid) (data := ud) (by simpa using hi) hpp (by
-        intro c' hc'
-        have hlt : i < e.chans.length := hi
-        simp only [List.getElem?_set, hlt, if_true] at hc'
-        cases hc'
-        rcases hs c hc with hr | ⟨s, hs1, hs2⟩
-        · exact Or.inr (Or.inl hr)
-        · exact Or.inr (Or.inr ⟨s, hs1, hs2⟩))).pushTask (t := .flush) trivial
-      split
-      · simp only [wp_emit, wp_modE, wp_queueTask]; exact hq _ _ hw2 rfl rfl
-      · simp only [wp_pure, wp_modE, wp_queueTask]; exact hq _ _ hw2 rfl rfl
-    refine key _ _ ?_
-    rcases Bool.eq_false_or_eq_true data.isEmpty with h1 | h1 <;>
-      rcases Bool.eq_false_or_eq_true isStr with h2 | h2 <;> simp [h1, h2] <;> decide
+  · simp only [wp_bind, wp_emit, wp_pure]; exact hq _ _ (h.mono (by omega)) rfl rfl
+  · rename_i hr
+    have hr1 : c.ready = 1 := by
+      rcases Nat.decEq c.ready 1 with h' | h'
+      · exact absurd h' hr
+      · exact h'
+    obtain ⟨U, hb, hw⟩ := h
+    try simp only [wp_pure]
+    refine wp_dcSend (B := B) hw hb hc hr1 ?_
+    intro e' l' hw' hf
+    exact hq e' l' hw' hf.rwnd hf.ins
+
+/-- The application arms a one-shot handler (any kind, any channel index): one unit of the budget. -/
+theorem wp_arm {A} {k i : Nat} {isStr : Bool} {data : Bytes} {Q : Unit → St → Prop} {e : Ep} {l : List Out}
+    (h : WFx (B + 1) e)
+    (hq : ∀ e' l', WFx B e' → e'.rwnd = e.rwnd → e'.inStreams = e.inStreams → Q () (e', l')) :
+    wp A (handle (.react k i isStr data)) Q (e, l) := by
+  obtain ⟨U, hb, hw⟩ := h
+  simp only [handle, wp_modE]
+  refine hq _ _ ⟨U, ?_, hw.setReactions _⟩ rfl rfl
+  simp only [List.length_append, List.length_singleton]; omega
 
 end Aiortc.Sctp.V2
